@@ -47,6 +47,9 @@ structure Case where
   insts : List (String × String) := []
   aggs : List (String × AggDecl) := []
   xbody : Option XBlock := none
+  /-- stage S3: the body once more in the extended syntax — the nested-aggregate model `StExt`
+  is run next to the flattened, proved model `StCore` and must give the same answers -/
+  xcheck : Option XBlock := none
   verdict : Option String := none     -- impl answer to `check`
   steps : List Step := []             -- reversed while reading
   pending : List (String × Val) := []
@@ -56,7 +59,7 @@ structure Case where
   lastOp : Option Bool := none
 
 def Case.program (c : Case) : Option Program :=
-  c.body.map fun b => { decls := c.decls, body := b }
+  c.body.map fun b => { decls := c.decls, aggs := c.aggs, body := b }
 
 def Case.xprogram (c : Case) : Option XProgram :=
   c.xbody.map fun b => { funcs := c.funcs, fbs := c.fbs, insts := c.insts, aggs := c.aggs, decls := c.decls, body := b }
@@ -109,9 +112,9 @@ def readLine (c : Case) (line : String) : Case :=
     | some a => { c with aggs := c.aggs ++ [a] }
     | none => { c with bad := true }
   | "body" :: toks =>
-    if c.funcs.isEmpty && c.fbs.isEmpty && c.aggs.isEmpty then
+    if c.funcs.isEmpty && c.fbs.isEmpty && c.insts.isEmpty then
       match parseBlock? toks with
-      | some b => { c with body := some b }
+      | some b => { c with body := some b, xcheck := if c.aggs.isEmpty then none else parseXBlock? toks }
       | none => { c with bad := true }
     else
       match parseXBlock? toks with
@@ -174,6 +177,15 @@ def modelPass (c : Case) : List String :=
     if c.bad then c.ops.map fun _ => "bad-op" else
     let steps := c.steps.reverse
     let outs := runModel .real p steps
+    -- stage S3: the two models of the aggregates must agree (verdict and every cycle)
+    let agree : Bool :=
+      match c.xcheck with
+      | none => c.aggs.isEmpty
+      | some xb =>
+        let xp : XProgram := { funcs := [], fbs := [], insts := [], aggs := c.aggs, decls := c.decls, body := xb }
+        xp.accepted == p.accepted &&
+          (runModelX xp steps).map (fun (o, e, f) => showCycle o e f) == outs.map (fun (o, e, f) => showCycle o e f)
+    if !agree then c.ops.map fun _ => "m models-disagree" else
     let rec emit (ops : List Bool) (outs : List (CycleOut × Env × Nat)) : List String :=
       match ops with
       | [] => []
@@ -269,9 +281,9 @@ def repairs (p : Program) : List (String × Cfg) :=
   [ ("lit-lowering", { litSmallest := true }),
     ("coerce-write", { coerce := some p.ctx }),
     ("lit-lowering+coerce-write", { litSmallest := true, coerce := some p.ctx }),
-    ("return-in-program", { returnOk := true }),
     ("for-ulint-cast", { forExact := true }),
-    ("all", { litSmallest := true, coerce := some p.ctx, returnOk := true, forExact := true }) ]
+    ("index-ulint-cast", { idxExact := true }),
+    ("all", { litSmallest := true, coerce := some p.ctx, forExact := true, idxExact := true }) ]
 
 def c02Oracle (p : Program) (steps : List Step) (impl : List ImplCycle) (isStrict : Bool) : String :=
   let spec := runSpec p steps
@@ -303,8 +315,7 @@ def oraclePassX (c : Case) (p : XProgram) : String :=
   if c.bad then s!"o {c.n} bad-op" else
   let steps := c.steps.reverse
   let acc := c.verdict == some "accept"
-  let hole := p.accepted && !p.acceptedFixed
-  let pre := if hole then "case-else-hole:" else ""
+  let pre := ""
   let head := s!"o {c.n} acc={if acc then 1 else 0} strict=0 spec=0"
   if c.verdict == some "panic" then s!"{head} c01=compile-panic c02=na c03=ok" else
   if !acc then s!"{head} c01=ok c02=na c03=ok" else
@@ -344,8 +355,7 @@ def oraclePass (c : Case) : String :=
     let acc := c.verdict == some "accept"
     let isStrict := Strict p
     let isSpec := Spec.typed p
-    let hole := p.accepted && !p.acceptedFixed
-    let pre := if hole then "case-else-hole:" else if isStrict then "strict:" else ""
+    let pre := if isStrict then "strict:" else ""
     let head := s!"o {c.n} acc={if acc then 1 else 0} strict={if isStrict then 1 else 0} spec={if isSpec then 1 else 0}"
     if c.verdict == some "panic" then s!"{head} c01=compile-panic c02=na c03=ok" else
     if !acc then
